@@ -335,6 +335,12 @@ def f_input_derived(p):
     return a
 
 
+def gen_c21(seed, size="quick"):
+    """programs for the embedding-API histories: no eqrel, no relation that is both input and derived (the history model keeps
+    inputs and derived relations apart)"""
+    return gen_c03(seed, size, exclude=(f_eqrel, f_input_derived))
+
+
 def gen_c20(seed, size="quick"):
     """C03's fragment without eqrel storage (the statement excludes it); every IDB relation is an output; half of the programs
     also contain relations that are both loaded from facts and defined by rules."""
